@@ -21,14 +21,17 @@ def apply_postprocessing_rules(ts: datetime, art: Artifact) -> Artifact:
 
     2020-01-01 20:00
     """
+    res = art
     if isinstance(art, Time):
         if art.isTOD:
-            return _latent_tod(ts, art)
+            res = _latent_tod(ts, art)
     if isinstance(art, Interval):
         if art.isTimeInterval:
-            return _latent_time_interval(ts, art)
-
-    return art
+            res = _latent_time_interval(ts, art)
+    if res is not art:
+        # the anchored value still stems from the same characters of the text
+        res.update_span(art)
+    return res
 
 
 def _latent_tod(ts: datetime, tod: Time) -> Time:
